@@ -122,8 +122,9 @@ func handleConn(conn net.Conn, conf *Config, logFrameRate bool) error {
 
 	log.Print("reading frames")
 
-	frameLogIntervalFirstMin *= header.FPS()
-	frameLogInterval *= header.FPS()
+	// Per connection: the package-level values are in seconds and must not be compounded on every reconnect.
+	frameLogIntervalFirstMin := frameLogIntervalFirstMin * header.FPS()
+	frameLogInterval := frameLogInterval * header.FPS()
 
 	count := 0
 	t0 := time.Now()
